@@ -332,7 +332,12 @@ def exact_family(run, scratch, cfg):
     run.add_tlc(res2)
     n = 0
     seen = set()
+    nscope = 0
+    sseen = set()
     for tr in read_emitted(emit2):
+        if tr["id"] not in sseen:
+            sseen.add(tr["id"])
+            nscope += scope_cases(run, tr)
         if tr["id"] in seen or tr["id"] not in configs:
             continue
         seen.add(tr["id"])
@@ -386,7 +391,63 @@ def exact_family(run, scratch, cfg):
                 if not close(lf2.lnL, base) or not close(lf2.lnL, exact):
                     run.fail("exact:MoveRoot:scoped", {"config": rec["id"], "root": r, "lnL": base, "lnL_rerooted": lf2.lnL, "exact": exact, "rerooted": rt.get_newick(with_distances=True)}, what="moving the root of a tree with per-edge parameter scopes changed lnL")
         run.sample({"config": rec["id"], "roots": tr["roots"], "splits": tr["splits"]}, limit=3)
-    return n, len(seen)
+    run.note("root_free_scope_cases", nscope)
+    return n + nscope, len(seen)
+
+
+def scope_cases(run, tr):
+    """Parameter scopes given as (tip1, tip2 | outgroup): the edges they name must be the spec's (root-free) set on every
+    rooting of the real tree, and a rate parameter scoped that way gives the same lnL on every rooting."""
+    from cogent3 import get_model, make_aligned_seqs, make_tree
+
+    if not tr["scopes"]:
+        return 0
+    base = make_tree(tr["newick"])
+    tips = base.get_tip_names()
+    if len(tips) < 4:
+        # three tips: the clade of two of them seen from the third is those two edges on every rooting; still checked
+        pass
+    k = 0
+    for e in base.get_edge_vector(include_root=False):
+        k += 1
+        e.length = 0.05 + 0.07 * k
+    rootings = [("as-written", base)]
+    for r in tr["roots"]:
+        rootings.append((f"rooted_at({r})", base.rooted_at(r)))
+    for tip in tips[:2]:
+        rootings.append((f"rooted_with_tip({tip})", base.rooted_with_tip(tip)))
+    rnd = random.Random(len(tips) * 7919)
+    seqs = {tp: "".join(rnd.choice("ACGT") if rnd.random() < 0.4 else "ACGTTGCAAGCT"[i % 12] for i in range(24)) for tp in tips}
+    aln = make_aligned_seqs(seqs, moltype="dna")
+    sm = get_model("HKY85")
+    n = 0
+    for t1, t2, og, clade, stem in tr["scopes"]:
+        want_clade = set(clade)
+        lnls = {}
+        for tag, tree in rootings:
+            n += 1
+            shape = "root-has-%d-children" % len(tree.children)
+            try:
+                got = set(tree.get_edge_names(t1, t2, clade=True, stem=False, outgroup_name=og))
+                got_stem = set(tree.get_edge_names(t1, t2, clade=True, stem=True, outgroup_name=og))
+            except Exception as ex:
+                run.fail(f"scope:edge-names:raised:{shape}:{tag.split('(')[0]}", {"config": tr["id"], "newick": tree.get_newick(), "tips": [t1, t2], "outgroup": og, "exception": repr(ex)}, what="resolving a (tip, tip | outgroup) scope raised")
+                continue
+            if got != want_clade or got_stem != want_clade | {stem}:
+                run.fail(f"scope:edge-names:{shape}:{tag.split('(')[0]}", {"config": tr["id"], "rooting": tag, "newick": tree.get_newick(), "tips": [t1, t2], "outgroup": og, "clade_edges": sorted(got), "clade_and_stem": sorted(got_stem), "spec_clade": sorted(want_clade), "spec_stem": stem}, what="the edges named by a (tip, tip | outgroup) scope depend on where the root is")
+                continue
+            lf = sm.make_likelihood_function(tree)
+            lf.set_alignment(aln)
+            lf.set_motif_probs({"A": 0.1, "C": 0.2, "G": 0.3, "T": 0.4})
+            lf.set_param_rule("kappa", value=1.0, is_constant=True)
+            lf.set_param_rule("kappa", tip_names=[t1, t2], outgroup_name=og, clade=True, stem=False, value=7.0, is_constant=True)
+            lnls[tag] = lf.lnL
+        if lnls:
+            ref = next(iter(lnls.values()))
+            bad = {k2: v for k2, v in lnls.items() if not close(v, ref)}
+            if bad:
+                run.fail("scope:lnL-depends-on-root", {"config": tr["id"], "tips": [t1, t2], "outgroup": og, "lnL": lnls}, what="lnL of a time-reversible model with a (tip, tip | outgroup)-scoped parameter changed with the rooting")
+    return n
 
 
 def _rebuild(rec, tree, extra=None, uniform=False):
